@@ -24,6 +24,10 @@ pub enum Op {
     Raw(usize),
     /// byte string of variable length (must be last operand), up to max
     VarBytes { max: usize, mq: u64 },
+    /// operand with its own generators: `len` = Some(fixed length) or None (variable, must be last);
+    /// `specials` = boundary inputs tried first (cartesian product with the other operands),
+    /// `random` = boundary-biased random generator
+    Custom { len: Option<usize>, specials: fn() -> Vec<Vec<u8>>, random: fn(&mut Rng) -> Vec<u8> },
 }
 
 impl Op {
@@ -36,6 +40,7 @@ impl Op {
             Op::Scalar32 => Some(32),
             Op::Raw(n) => Some(*n),
             Op::VarBytes { .. } => None,
+            Op::Custom { len, .. } => *len,
         }
     }
 }
@@ -53,7 +58,7 @@ impl Rng {
     pub fn below(&mut self, n: u64) -> u64 { self.next() % n }
 }
 
-fn limb_palette(r: &mut Rng, mq: u64) -> u64 {
+pub fn limb_palette(r: &mut Rng, mq: u64) -> u64 {
     match r.below(16) {
         0 => 0,
         1 => 1,
@@ -120,6 +125,7 @@ pub fn specials(op: &Op) -> Vec<Vec<u8>> {
             v
         }
         Op::Raw(n) => vec![vec![0u8; *n], vec![0xFFu8; *n], (0..*n).map(|i| (i * 37 + 11) as u8).collect(), { let mut w = vec![0u8; *n]; if *n > 0 { w[0] = 1; } w }, { let mut w = vec![0xFFu8; *n]; if *n > 0 { w[*n - 1] = 0x7F; } w }],
+        Op::Custom { specials, .. } => specials(),
         Op::VarBytes { max, mq } => {
             let mut v: Vec<Vec<u8>> = Vec::new();
             for n in [0usize, 1, 31, 32, 33, 63, 64, 65, 96, 97] {
@@ -181,6 +187,7 @@ pub fn random(op: &Op, r: &mut Rng) -> Vec<u8> {
             b.truncate(n);
             b
         }
+        Op::Custom { random, .. } => random(r),
         Op::VarBytes { max, mq } => {
             let n = match r.below(4) { 0 => r.below(*max as u64 + 1) as usize, 1 => 32 * (r.below(*max as u64 / 32 + 1) as usize), _ => (32 * (r.below(*max as u64 / 32 + 1) as usize) + r.below(3) as usize).saturating_sub(1).min(*max) };
             let mut b = Vec::with_capacity(n);
